@@ -58,7 +58,11 @@ func (fg *FnGen) step(fr *Frame, b *ssa.BasicBlock, ins ssa.Instruction, st *Sta
 		fg.allocs = []*Term{ref}
 		fr.vals[x] = ref
 		elem := x.Type().Underlying().(*types.Pointer).Elem()
+		fg.freshSubObjects(ref, elem, 0)
 		fg.storeValue(st, ref, elem, ti.zeroOf(elem))
+		if stt, ok := elem.Underlying().(*types.Struct); ok && ti.structName(elem, stt) == "strings.Builder" {
+			fg.set(st, sbVar, sbSort, Store(fg.lookup(st, sbVar, sbSort), ref, StrLit("")))
+		}
 		return st
 	case *ssa.BinOp:
 		fr.vals[x] = fg.binop(fr, x, reach)
@@ -149,7 +153,11 @@ func (fg *FnGen) step(fr *Frame, b *ssa.BasicBlock, ins ssa.Instruction, st *Sta
 		switch u := x.X.Type().Underlying().(type) {
 		case *types.Array:
 			fg.safety("index", reach, And(Ge(idx, IntLit(0)), Lt(idx, IntLit(u.Len()))), x.Pos())
-			fr.vals[x] = Select(xv, idx)
+			if xv.Sort == SString {
+				fr.vals[x] = fg.byteAt(xv, idx, reach)
+			} else {
+				fr.vals[x] = Select(xv, idx)
+			}
 		case *types.Basic: // string
 			fg.safety("index", reach, And(Ge(idx, IntLit(0)), Lt(idx, StrLen(xv))), x.Pos())
 			fr.vals[x] = fg.byteAt(xv, idx, reach)
@@ -567,6 +575,9 @@ func (fg *FnGen) load(fr *Frame, p ssa.Value, st *State, reach *Term, pos token.
 		return Select(Select(mem, SBase(s)), Add(SOff(s), a.Idx))
 	case "arrelem":
 		arr := Select(fg.lookup(st, a.Var, ArraySort(SInt, a.Sort)), a.Base)
+		if arr.Sort == SString {
+			return fg.byteAt(arr, a.Idx, reach)
+		}
 		return Select(arr, a.Idx)
 	case "global":
 		if isErrorType(a.GoTyp) {
@@ -671,6 +682,12 @@ func (fg *FnGen) store(fr *Frame, p ssa.Value, v *Term, vt types.Type, st *State
 	case "arrelem":
 		hs := ArraySort(SInt, a.Sort)
 		h := fg.lookup(st, a.Var, hs)
+		if a.Sort == SString {
+			bs := Select(h, a.Base)
+			nb := StrCat(Substr(bs, IntLit(0), a.Idx), StrFromCode(v), Substr(bs, Add(a.Idx, IntLit(1)), Sub(StrLen(bs), Add(a.Idx, IntLit(1)))))
+			fg.set(st, a.Var, hs, Store(h, a.Base, nb))
+			return st
+		}
 		fg.set(st, a.Var, hs, Store(h, a.Base, Store(Select(h, a.Base), a.Idx, v)))
 		return st
 	case "global":
@@ -760,7 +777,11 @@ func (fg *FnGen) sliceOp(fr *Frame, x *ssa.Slice, st *State, reach *Term) *State
 				fg.set(st, mn, ms, Store(fg.lookup(st, mn, ms), base, content))
 				fg.note("slice of an array pointer is a snapshot of the array (later writes through the array are not seen through the slice)")
 			} else {
-				fg.note("slice of byte-array pointer: backing store not tracked in " + fr.fn.Name())
+				cn, cs := fg.cellVar(u.Elem())
+				content := Select(fg.lookup(st, cn, cs), xv)
+				fg.assumeIf(reach, Eq(StrLen(content), n))
+				fg.set(st, mn, ms, Store(fg.lookup(st, mn, ms), base, content))
+				fg.note("slice of an array pointer is a snapshot of the array (later writes through the array are not seen through the slice)")
 			}
 		}
 		fr.vals[x] = MkSlice(base, lo, Sub(hi, lo), Sub(n, lo))
